@@ -107,18 +107,26 @@ async fn http_token_probe(h: &mut Harness, which: u32) {
     use iggy::http::HttpTransport;
     let Ok(http) = iggy::http::client::HttpClient::create(std::sync::Arc::new(iggy::http::config::HttpClientConfig { api_url: "http://sim".into(), retries: 0 })) else { return };
     let (root_name, root_password) = h.model.users.get(&1).map(|u| (u.name.clone(), u.password.clone())).unwrap_or((crate::world::ROOT_USER.into(), crate::world::ROOT_PASSWORD.into()));
-    let kind = which % 3;
+    let kind = which % 4;
     let (token, what): (String, &'static str) = match kind {
         0 => (format!("eyJhbGciOiJIUzI1NiJ9.{:x}.{:x}", which as u64 * 7919, which as u64 * 104729), "token_never_issued"),
+        3 if !h.revoked_http_tokens.is_empty() => {
+            // a token revoked earlier in the run - possibly before a restart, possibly not the last one revoked
+            let pick = (which as usize / 4) % h.revoked_http_tokens.len();
+            (h.revoked_http_tokens[pick].clone(), "token_revoked_earlier")
+        }
         _ => {
             // a real token of root ...
             let Ok(identity) = http.login_user(&root_name, &root_password).await else { return };
             let Some(info) = identity.access_token else { return };
             let token = info.token;
-            if kind == 1 {
+            if kind == 1 || kind == 3 {
                 // ... revoked by logging out
                 if http.logout_user().await.is_err() {
                     return;
+                }
+                if h.revoked_http_tokens.len() < 16 {
+                    h.revoked_http_tokens.push(token.clone());
                 }
                 (token, "token_revoked_by_logout")
             } else {
